@@ -52,6 +52,12 @@ pub enum Step {
     Read(u16),
     ReadEnd,
     Close,
+    /// by_index_decrypt with the entry's own password (0), a different one (1) or an empty one (2)
+    OpenPw(u8, u8),
+    /// by_index_raw
+    OpenRaw(u8),
+    /// query the accessors of the entry that is currently open on this handle once more
+    Meta,
 }
 
 #[derive(Clone, Debug, PartialEq, Eq)]
@@ -72,8 +78,49 @@ impl Handle {
     fn new(a: Arch) -> Handle {
         Handle { arc: Box::into_raw(Box::new(a)), file: None }
     }
-    fn step(&mut self, s: &Step, n_entries: usize, names: &[String]) -> Obs {
+    fn step(&mut self, s: &Step, n_entries: usize, names: &[String], pws: &[Option<String>]) -> Obs {
         match s {
+            Step::OpenPw(i, which) => {
+                self.file = None;
+                if n_entries == 0 {
+                    return Obs::OpenFailed;
+                }
+                let idx = *i as usize % n_entries;
+                let a: &'static mut Arch = unsafe { &mut *self.arc };
+                let pw: Vec<u8> = match which % 3 {
+                    0 => pws.get(idx).cloned().flatten().unwrap_or_else(|| "unused".into()).into_bytes(),
+                    1 => b"not the password".to_vec(),
+                    _ => Vec::new(),
+                };
+                match a.by_index_decrypt(idx, &pw) {
+                    Ok(Ok(f)) => {
+                        let o = Obs::Opened { name: f.name().to_string(), size: f.size(), crc: f.crc32(), data_start: f.data_start(), header_start: f.header_start() };
+                        self.file = Some(f);
+                        o
+                    }
+                    _ => Obs::OpenFailed,
+                }
+            }
+            Step::OpenRaw(i) => {
+                self.file = None;
+                if n_entries == 0 {
+                    return Obs::OpenFailed;
+                }
+                let idx = *i as usize % n_entries;
+                let a: &'static mut Arch = unsafe { &mut *self.arc };
+                match a.by_index_raw(idx) {
+                    Ok(f) => {
+                        let o = Obs::Opened { name: f.name().to_string(), size: f.compressed_size(), crc: f.crc32(), data_start: f.data_start(), header_start: f.header_start() };
+                        self.file = Some(f);
+                        o
+                    }
+                    Err(_) => Obs::OpenFailed,
+                }
+            }
+            Step::Meta => match &self.file {
+                None => Obs::NoFile,
+                Some(f) => Obs::Opened { name: f.name().to_string(), size: f.size(), crc: f.crc32(), data_start: f.data_start(), header_start: f.header_start() },
+            },
             Step::Open(i) | Step::OpenByName(i) => {
                 self.file = None; // close the previous entry first (one entry per handle at a time)
                 if n_entries == 0 {
@@ -181,11 +228,12 @@ fn check(c: &Case, info: &mut Info) -> Result<(), String> {
         let mut b = zip::ZipArchive::new(PosReader::new(bytes.clone(), 0)).map_err(|e| format!("harness: {e}"))?;
         (0..n).map(|i| b.by_index_raw(i).map(|f| f.name().to_string()).unwrap_or_default()).collect()
     };
+    let pws: Vec<Option<String>> = gen::model(&c.program).0.iter().map(|m| m.password.clone()).collect();
     // optionally the handle the clones are taken from has been used first
     let mut origin = Handle::new(base);
     if let Some(k) = c.warm_up {
         for st in c.scripts[0].iter().take(k as usize) {
-            let _ = origin.step(st, n, &names);
+            let _ = origin.step(st, n, &names, &pws);
         }
         origin.file = None;
     }
@@ -195,7 +243,7 @@ fn check(c: &Case, info: &mut Info) -> Result<(), String> {
     let mut alone: Vec<Vec<Obs>> = Vec::new();
     for s in &c.scripts {
         let mut h = Handle::new(zip::ZipArchive::new(PosReader::new(bytes.clone(), 0)).map_err(|e| format!("harness: {e}"))?);
-        alone.push(s.iter().map(|st| h.step(st, n, &names)).collect());
+        alone.push(s.iter().map(|st| h.step(st, n, &names, &pws)).collect());
     }
     let lens: Vec<usize> = c.scripts.iter().map(|s| s.len()).collect();
     let all = interleavings(&lens, 1680);
@@ -211,7 +259,7 @@ fn check(c: &Case, info: &mut Info) -> Result<(), String> {
                 switched_while_open = true;
             }
             let st = &c.scripts[h][pos[h]];
-            let o = hs[h].step(st, n, &names);
+            let o = hs[h].step(st, n, &names, &pws);
             if o != alone[h][pos[h]] {
                 return Err(format!("handle {h} step {} ({st:?}) observes {} under interleaving {il:?}, but {} when the script runs alone", pos[h], brief(&o), brief(&alone[h][pos[h]])));
             }
@@ -477,7 +525,7 @@ fn probe_send_sync(ctx: &mut Ctx) {
 }
 
 pub fn run(ctx: &mut Ctx) {
-    ctx.rule("interleavings: 2-3 clones of one opened archive (pristine, or just used for the first k steps of a script; the underlying reader's clone() keeps the position, rewinds, or lands elsewhere), each with a generated script over {open entry by index / by name, read k bytes, read to end, close}; EVERY interleaving of the scripts at call granularity on one thread (up to 1680 per script set) - each handle must observe exactly what the same script observes on an archive used alone. threads: a fresh archive, N in {2,4,8,16} clones on N OS threads released from a barrier, each opening (by index or by name) and reading all entries in a generated order (shared prefix + private shuffle) with generated yield points; every observation equals that of a handle used alone. faulty_sibling: two clones of a fresh archive take turns; the first clone's OWN reader fails (I/O error / panic) at its k-th I/O call for every k - the second clone must observe exactly what a handle used alone observes. send_sync_probe: a probe crate that only compiles if ZipArchive<R>: Send + Sync for R: Send + Sync. Non-trivial = the interleaving switches handles while an entry is open on another handle.");
+    ctx.rule("interleavings: 2-3 clones of one opened archive (pristine, or just used for the first k steps of a script; the underlying reader's clone() keeps the position, rewinds, or lands elsewhere), each with a generated script over {open entry by index / by name / raw / with the right, a wrong or an empty password (plain and ZipCrypto entries), query the open entry's accessors again, read k bytes, read to end, close}; EVERY interleaving of the scripts at call granularity on one thread (up to 1680 per script set) - each handle must observe exactly what the same script observes on an archive used alone. threads: a fresh archive, N in {2,4,8,16} clones on N OS threads released from a barrier, each opening (by index or by name) and reading all entries in a generated order (shared prefix + private shuffle) with generated yield points; every observation equals that of a handle used alone. faulty_sibling: two clones of a fresh archive take turns; the first clone's OWN reader fails (I/O error / panic) at its k-th I/O call for every k - the second clone must observe exactly what a handle used alone observes. send_sync_probe: a probe crate that only compiles if ZipArchive<R>: Send + Sync for R: Send + Sync. Non-trivial = the interleaving switches handles while an entry is open on another handle.");
     ctx.assume("OS thread schedules are sampled, not enumerated (the single-thread interleaving enumeration is the deciding part); Send/Sync is a compile-time fact observed by a build probe");
     if ctx.is_run() {
         probe_send_sync(ctx);
@@ -487,16 +535,17 @@ pub fn run(ctx: &mut Ctx) {
         probe_send_sync(&mut tmp);
         ctx.replay_verdict = Some(if tmp.violations.is_empty() { Verdict::Pass } else { Verdict::Fail(tmp.violations[0].message.clone()) });
     }
-    let n = ctx.q(500, 5000);
+    let n = ctx.q(1500, 8000);
     ctx.max_shrink_iters = 300;
     ctx.explore::<Case>(
         "interleavings",
         n,
         &|| {
-            let step = prop_oneof![3 => any::<u8>().prop_map(Step::Open), 1 => any::<u8>().prop_map(Step::OpenByName), 3 => prop_oneof![Just(1u16), Just(5), 1u16..200, Just(5000)].prop_map(Step::Read), 2 => Just(Step::ReadEnd), 1 => Just(Step::Close)];
+            let small = || prop_oneof![0u8..6, any::<u8>()];
+            let step = prop_oneof![3 => small().prop_map(Step::Open), 1 => small().prop_map(Step::OpenByName), 2 => (small(), 0u8..3).prop_map(|(i, w)| Step::OpenPw(i, w)), 1 => small().prop_map(Step::OpenRaw), 2 => Just(Step::Meta), 3 => prop_oneof![Just(1u16), Just(5), 1u16..200, Just(5000)].prop_map(Step::Read), 2 => Just(Step::ReadEnd), 1 => Just(Step::Close)];
             let script = |lo: usize, hi: usize| proptest::collection::vec(step.clone(), lo..=hi);
             (
-                gen::program(5, 20000, false, false).prop_filter("has entries", |p| gen::entry_count(p) > 0).prop_map(gen::tame),
+                gen::program(5, 20000, false, true).prop_filter("has entries", |p| gen::entry_count(p) > 0).prop_map(gen::tame),
                 prop_oneof![2 => (script(2, 4), script(2, 4)).prop_map(|(a, b)| vec![a, b]), 1 => (script(3, 3), script(3, 3), script(2, 3)).prop_map(|(a, b, c)| vec![a, b, c]), 1 => (script(4, 6), script(3, 5)).prop_map(|(a, b)| vec![a, b])],
             )
                 .prop_map(|(program, scripts)| Case { program, scripts, clone_mode: 0, warm_up: None })
@@ -511,6 +560,9 @@ pub fn run(ctx: &mut Ctx) {
             info.label(if c.scripts.len() == 3 { "3-handles" } else { "2-handles" });
             info.label(["clone-keeps-position", "clone-rewinds", "clone-at-end", "clone-in-the-middle"][(c.clone_mode % 4) as usize]);
             info.label_if(c.warm_up.is_some(), "cloned-from-a-used-handle");
+            info.label_if(gen::model(&c.program).0.iter().any(|m| m.password.is_some()), "has-encrypted-entries");
+            info.label_if(c.scripts.iter().flatten().any(|s| matches!(s, Step::OpenPw(_, w) if w % 3 != 0)), "open-with-wrong-password");
+            info.label_if(c.scripts.iter().flatten().any(|s| matches!(s, Step::Meta)), "accessors-queried-again");
             match catch(|| check(c, info)) {
                 Ok(r) => Verdict::from_result(r),
                 Err(p) => Verdict::Fail(format!("PANIC: {p}")),
